@@ -3,6 +3,7 @@ package main
 import (
 	"os"
 
+	_ "verif/checks/c01"
 	_ "verif/checks/c05"
 	_ "verif/checks/c10"
 	_ "verif/checks/c17"
